@@ -88,11 +88,12 @@ theorem unmarshalOne_spec (A : AlignTable) (hA : PadOK A) (hpos : A.Pos) (le : B
       (pre ++ (encUInt (endianOf le) 1 t'.render.length ++ Spec.sigBytes t' ++ [0]) ++
         zeros (padLen (A t'.code) (off + (1 + t'.render.length + (0 + 1)))))
       body rest _ pv f hok'.1 hbody (by rw [hd]; simp [Nat.add_assoc]) (by simp; omega) hv (by omega)
-    simp only [Ty.render, unmarshalOne, List.head?_cons, udisp_v, uSignature, hsg.1, hsg.2, asciiDecode_sigBytes,
+    simp only [Ty.render, unmarshalOne, List.head?_cons, udisp_v, uSignature, hsg.1, hsg.2, asciiDecode_sigBytes, uframe_signature,
       head?_render, hA]
-    have e1 : off + (1 + t'.render.length + 1) = off + (1 + t'.render.length + (0 + 1)) := by omega
+    have e1 : off + (2 + t'.render.length) = off + (1 + t'.render.length + (0 + 1)) := by omega
     rw [e1, unmarshalTop_single A hA hpos _ t' _ (padLen_after _ _ hpos'), ih]
     simp only [Except.ok.injEq, Prod.mk.injEq, and_true, zeros_length]
+    omega
   | .array vs, t, pre, bs, rest, off, pv, fuel, hw, he, hd, hp, hv, hf => by
     cases t <;> simp only [Spec.encode, reduceCtorEq] at he
     · simp [Spec.encBasic] at he
